@@ -1,0 +1,54 @@
+// Licensed to the Apache Software Foundation (ASF) under one
+// or more contributor license agreements.  See the NOTICE file
+// distributed with this work for additional information
+// regarding copyright ownership.  The ASF licenses this file
+// to you under the Apache License, Version 2.0 (the
+// "License"); you may not use this file except in compliance
+// with the License.  You may obtain a copy of the License at
+//
+//   http://www.apache.org/licenses/LICENSE-2.0
+//
+// Unless required by applicable law or agreed to in writing,
+// software distributed under the License is distributed on an
+// "AS IS" BASIS, WITHOUT WARRANTIES OR CONDITIONS OF ANY
+// KIND, either express or implied.  See the License for the
+// specific language governing permissions and limitations
+// under the License.
+
+//! Verification hooks (feature `verif-hooks`, default off).
+//!
+//! Re-exports of crate-private pure helpers so that an external verification
+//! harness can compare them with a formal model. Nothing here changes behaviour.
+
+use std::hash::Hasher;
+
+use crate::hash::MurmurHash3X64128;
+use crate::hash::XxHash64;
+
+/// MurmurHash3-x64-128 of `parts` fed to the hasher as successive `write` calls.
+pub fn murmur3_x64_128(seed: u64, parts: &[&[u8]]) -> (u64, u64) {
+    let mut hasher = MurmurHash3X64128::with_seed(seed);
+    for p in parts {
+        hasher.write(p);
+    }
+    hasher.finish128()
+}
+
+/// XXH64 of `parts` fed to the hasher as successive `write` calls.
+pub fn xxhash64(seed: u64, parts: &[&[u8]]) -> u64 {
+    let mut hasher = XxHash64::with_seed(seed);
+    for p in parts {
+        hasher.write(p);
+    }
+    hasher.finish64()
+}
+
+/// `XxHash64::hash_u64`.
+pub fn xxhash64_u64(input: u64, seed: u64) -> u64 {
+    XxHash64::hash_u64(input, seed)
+}
+
+/// `hash::compute_seed_hash`.
+pub fn compute_seed_hash(seed: u64) -> u16 {
+    crate::hash::compute_seed_hash(seed)
+}
